@@ -6,6 +6,7 @@ import CookModel.Lemmas.Spans
 import CookModel.Lemmas.SpansDoc
 import CookModel.Lemmas.SpansFront
 import CookModel.Lemmas.SpansMeta
+import CookModel.Lemmas.SpansAnalysis
 /-
   C04  Every reported source location is in bounds, on char boundaries, faithful.
 
@@ -308,5 +309,81 @@ theorem C04_meta_event_spans_ok {α : Type} [Arith α] (cs : CharSpec) (ext : Ex
     SrcOrdered (pullMetaEvents (α := α) cs ext s).1.toList := by
   obtain ⟨b, h⟩ := pullMetaEvents_topInv (α := α) cs ext s
   exact ⟨h.ok, h.ord⟩
+
+/-! ### the analysis stage (`ColOK`, `SpOK` in Lemmas/SpansAnalysis.lean) -/
+
+/-- A metadata entry's key ends at or before the start of its value (both being valid spans of the
+    input): the span `key.start .. value.end` that the analysis records for a `>>` entry and uses as a
+    label is therefore a valid span too. -/
+theorem C04_metadata_key_before_value {α : Type} [Arith α] (cs : CharSpec) (ext : Ext) (s : List Char)
+    (k v : Text) (h : Ev.metadata k v ∈ (pullEvents (α := α) cs ext s).1.toList) :
+    k.span.stop ≤ v.span.start ∧ SpanOK 0 s ⟨k.span.start, v.span.stop⟩ := by
+  obtain ⟨hk, hv, hkv⟩ := C04_event_spans_ok (α := α) cs ext s _ h
+  exact ⟨hkv, hk.1.1, hv.1.2.1, by have := hk.1.2.2; have := hv.1.2.2; show k.span.start ≤ v.span.stop; omega⟩
+
+/-- **One event of the analysis fold.**  If every location the collector has recorded so far — the
+    labels of its diagnostics, the `locations` of ingredients and cookware, the spans of the `>>`
+    entries (`ColOK`) — is a valid span of `input`, and the event has valid spans, then the same holds
+    after `RecipeCollector` has processed the event: every diagnostic it pushes on the way
+    (`resolve_reference`, `resolve_intermediate_ref`, the unit / note / quantity checks of a reference
+    against its definition, the timer checks, the mode keys, `time_override_check`, text in components
+    mode, components in text mode, the scaling-lock warning) carries only labels that lie inside the
+    input on character boundaries with `start ≤ end`.  This includes the three places that compute a
+    label by byte arithmetic: the note span widened over its parentheses (`note_reference_error`,
+    after the repair), the empty span at the end of a definition, and `key.start .. value.end`. -/
+theorem C04_analysis_step_keeps_spans {α : Type} [Arith α] (env : Env) (input : Str) (ev : Ev α) (s : Col α)
+    (hs : ColOK input s) (hev : EvSpansOK 0 input ev) : ColOK input (processEvent env input ev s).2 :=
+  (processEvent_spOK input env ev hev).out s hs
+
+/-- **Any event list.**  For every list of events with valid spans (well-formed or not), every
+    diagnostic `parse_events` reports has only valid labels, and every location of the returned
+    collector is valid. -/
+theorem C04_analysis_labels_ok_of_events {α : Type} [Arith α] (env : Env) (input : Str) (evs : List (Ev α))
+    (hev : ∀ ev ∈ evs, EvSpansOK 0 input ev) :
+    (∀ d ∈ (parseEvents env input evs).diags.toList, ∀ l ∈ d.labels, SpanOK 0 input l) ∧
+    (∀ c, (parseEvents env input evs).output = some c → ColOK input c) :=
+  parseEventsLoop_spOK input env evs {} (ColOK.init input) hev
+
+/-- **Every label of every diagnostic of `CooklangParser::parse` is a valid span of the input**: for
+    every input, extension set and converter environment, each diagnostic of the report — parse stage
+    or analysis stage, error or warning — has only labels with `start ≤ end ≤ len(input)` whose two ends
+    are character boundaries of the input; and the `locations` the analysis keeps for ingredients and
+    cookware (all spans of the component, its modifiers, name, alias, note, quantity, unit) and the spans
+    of the `>>` entries are such spans. -/
+theorem C04_analysis_labels_ok {α : Type} [Arith α] (env : Env) (input : Str) :
+    (∀ d ∈ (parseRecipe (α := α) env input).diags.toList, ∀ l ∈ d.labels, SpanOK 0 input l) ∧
+    (∀ c, (parseRecipe (α := α) env input).output = some c → ColOK input c) :=
+  C04_analysis_labels_ok_of_events env input _ (C04_event_spans_ok env.cs env.ext input)
+
+/-- The same for `CooklangParser::parse_metadata` (the metadata-only scanner followed by the same
+    analysis fold). -/
+theorem C04_analysis_meta_labels_ok {α : Type} [Arith α] (env : Env) (input : Str) :
+    (∀ d ∈ (parseMetadata (α := α) env input).diags.toList, ∀ l ∈ d.labels, SpanOK 0 input l) ∧
+    (∀ c, (parseMetadata (α := α) env input).output = some c → ColOK input c) :=
+  C04_analysis_labels_ok_of_events env input _ (C04_meta_event_spans_ok env.cs env.ext input).1
+
+/-- The label of `note_reference_error` stays a valid span: widening a valid span over an adjacent
+    `(` before it and `)` after it gives a valid span. -/
+theorem C04_note_reference_label_ok (input : Str) (span : Span) (h : SpanOK 0 input span) :
+    SpanOK 0 input (noteRefSpan input span) := spansA_noteRefSpan input span h
+
+/-! non-vacuity: the widening really happens (and lands on boundaries next to a two-byte character);
+    the initial collector satisfies the invariant; a label inside `é` is rejected by `DiagOK` -/
+example : noteRefSpan "é(b)".toList ⟨3, 4⟩ = ⟨2, 5⟩ := by decide
+example : ColOK (α := Rat) "abc".toList {} := ColOK.init _
+example : ¬ DiagOK 0 ['é', 'x'] ⟨.error, .analysis, "k", [⟨1, 3⟩]⟩ := by
+  intro h
+  obtain ⟨⟨pre, suf, h1, h2⟩, -, -⟩ := h ⟨1, 3⟩ (by simp)
+  match pre, h1, h2 with
+  | [], _, h2 => simp [utf8Len] at h2
+  | [c], h1, h2 =>
+    simp only [List.cons_append, List.nil_append, List.cons.injEq] at h1
+    rw [← h1.1] at h2; revert h2; decide
+  | c :: d :: r, h1, h2 =>
+    simp only [List.cons_append, List.cons.injEq] at h1
+    rw [← h1.1, ← h1.2.1] at h2
+    simp [utf8Len] at h2
+    have : 'é'.utf8Size = 2 := by decide
+    omega
 
 end Cook
